@@ -29,6 +29,9 @@ type c11rDelivery struct {
 	Rcpts  []string `json:"rcpts"`
 	FailAt string   `json:"fail_at"` // "", mail, rcpt, data, abort-after-rcpt
 	Class  string   `json:"class"`
+	// the message carries REQUIRETLS: the (plaintext) next hop cannot satisfy it and the delivery is refused
+	// by the target itself after the connection was opened
+	RequireTLS bool `json:"requiretls,omitempty"`
 }
 
 type c11rScenario struct {
@@ -72,7 +75,7 @@ func c11rRun(sc c11rScenario) (vs []ev.V) {
 	hdr := textproto.Header{}
 	hdr.Add("Subject", "c11")
 	one := func(i int, d c11rDelivery) {
-		del, err := tgt.Start(ctx, &module.MsgMetadata{ID: fmt.Sprintf("c11r-%d", i)}, "sender@src.invalid")
+		del, err := tgt.Start(ctx, &module.MsgMetadata{ID: fmt.Sprintf("c11r-%d", i), SMTPOpts: smtp.MailOptions{RequireTLS: d.RequireTLS}}, "sender@src.invalid")
 		if err != nil {
 			return
 		}
@@ -155,11 +158,12 @@ func c11rRun(sc c11rScenario) (vs []ev.V) {
 
 func TestVerifC11Remote(t *testing.T) {
 	r := ev.Get("C11")
-	ev.Run(t, r, ev.Spec[c11rScenario]{Name: "remote", N: r.Scale(1, 4, 50), Gen: func(t *rapid.T) c11rScenario {
+	ev.Run(t, r, ev.Spec[c11rScenario]{Name: "remote", Journal: true, N: r.Scale(1, 4, 50), Gen: func(t *rapid.T) c11rScenario {
 		sc := c11rScenario{N: rapid.IntRange(1, 3).Draw(t, "n"), Parallel: rapid.IntRange(0, 3).Draw(t, "parallel") == 0}
 		sc.Scopes = rapid.SliceOfNDistinct(rapid.SampledFrom([]string{"all", "source", "destination", "destination"}), 1, 3, rapid.ID[string]).Draw(t, "scopes")
 		for i, n := 0, rapid.IntRange(1, 5).Draw(t, "ndeliveries"); i < n; i++ {
-			d := c11rDelivery{FailAt: rapid.SampledFrom([]string{"", "", "mail", "mail", "rcpt", "data", "abort-after-rcpt"}).Draw(t, "fail_at"), Class: rapid.SampledFrom([]string{"T", "P"}).Draw(t, "class")}
+			d := c11rDelivery{FailAt: rapid.SampledFrom([]string{"", "", "mail", "mail", "rcpt", "data", "abort-after-rcpt"}).Draw(t, "fail_at"), Class: rapid.SampledFrom([]string{"T", "P"}).Draw(t, "class"),
+				RequireTLS: rapid.IntRange(0, 4).Draw(t, "requiretls") == 0}
 			idx := rapid.SliceOfNDistinct(rapid.IntRange(0, 2), 1, 3, rapid.ID[int]).Draw(t, "rcpts")
 			for _, k := range idx {
 				d.Rcpts = append(d.Rcpts, c11rRcpts[k])
@@ -170,7 +174,7 @@ func TestVerifC11Remote(t *testing.T) {
 	}, Run: c11rRun, Info: func(sc c11rScenario) ev.Info {
 		fail := false
 		for _, d := range sc.Deliveries {
-			if d.FailAt != "" {
+			if d.FailAt != "" || d.RequireTLS {
 				fail = true
 			}
 		}
